@@ -14,7 +14,7 @@ import ast
 from mlmverif import cfg as cfgm
 from mlmverif.core import (parent_map, AnalysisError, Ctx, FuncInfo, is_self_attr, norm,
                            unparse, walk_no_nested)
-from mlmverif.locks import ls_str
+from mlmverif.locks import ls_has, ls_str
 from mlmverif.props._queue import DEQ, ENQ, QCLS, QMOD, STATES, model
 from mlmverif.sync import (calls_method, enclosing_loops, mentions_attr,
                            node_of)
@@ -50,8 +50,13 @@ def _in_family(m, fi: FuncInfo) -> bool:
 def run(ctx: Ctx):
   m = model(ctx)
   eng = m.eng
-  for r in (r1, r2, r3, r4, r5, r6, r7, r8, r9, r10, r11, r13):
+  for r in (r1, r2, r3, r4, r5, r6, r7, r8, r9, r10, r11, r13, r14):
     ctx.guard(r, m)
+  from mlmverif.props import c13
+  ctx.include('R-C04-15', '"end-of-stream carrying all producers\' return values":'
+              ' the enqueue loops forward every return value of their iterator'
+              ' (`*e.args` / `e.value`), also when the iterator is another queue'
+              ' whose end-of-stream carries several (R-C13-4)', c13.r4, min_instances=2)
   ctx.include('R-C04-12', '"no interleaving leaves a producer or consumer blocked'
               ' for ever" on the stop/failure paths: a recorded failure and a'
               ' stop request wake ALL waiters on both conditions (R-C05-1,'
@@ -288,7 +293,17 @@ def r5(ctx: Ctx, m):
         prune = _cond_true_prunes(list_name) if list_name else (lambda a, b, c: True)
 
         def edge_ok(a, b, lab, prune=prune):
-          return lab not in ('exc', 'close') and prune(a, b, lab)
+          if lab == 'close':
+            return False
+          if lab == 'exc':
+            # queue.Empty / queue.Full raised by the non-blocking attempt is the
+            # protocol's "nothing there / no room" signal: follow it into its
+            # handler (the waits live there)
+            return bool(calls_method(a, 'get_nowait') or calls_method(a, 'put_nowait')) and (
+                b.kind == 'handler' and b.ast is not None and any(
+                    k in unparse(getattr(b.ast, 'type', None) or ast.Constant(None))
+                    for k in ('Empty', 'Full')))
+          return prune(a, b, lab)
 
         # targets: normal exit and any wait on the *own* side's condition
         own = DEQ if lock == ENQ else ENQ
@@ -950,12 +965,87 @@ def r13(ctx: Ctx, m):
   ctx.floor(rule, 2, n)
 
 
+def r14(ctx: Ctx, m):
+  rule = 'R-C04-14'
+  ctx.rule(rule, 'test-then-wait is atomic: on every path from the attempt that'
+           ' establishes "nothing to take / no room" (get_nowait / put_nowait)'
+           ' to the wait() on the condition, the condition\'s lock is held at'
+           ' every statement (temporary hand-offs through _release_and_notify'
+           ' re-acquire before they return and are followed by a re-test,'
+           ' R-C04-9) — a notification sent between an unlocked test and the'
+           ' wait reaches nobody')
+  n = 0
+  for fi, ci in m.roots:
+    g = cfgm.cfg_of(fi.node)
+    key = None
+    for k in m.eng.node_states:
+      if k[0] == fi.module.name and k[1] == fi.qualname and k[2] == ():
+        key = k
+    if key is None:
+      continue
+    IN = m.eng.node_states[key]
+    preds: dict = {}
+    for a in g.nodes:
+      for b, lab in a.succ:
+        if lab != 'close':
+          preds.setdefault(b, []).append(a)
+    for lock, attempt in ((DEQ, 'get_nowait'), (ENQ, 'put_nowait')):
+      waits = [nd for nd in g.nodes if any(
+          isinstance(x, ast.Call) and isinstance(x.func, ast.Attribute) and x.func.attr == 'wait'
+          and m.eng.lock_id(x.func.value, fi, {}) == lock for x in cfgm.node_exprs(nd))]
+      is_attempt = lambda nd: any(isinstance(x, ast.Call) and isinstance(x.func, ast.Attribute)
+                                  and x.func.attr == attempt for x in cfgm.node_exprs(nd))
+      for w in waits:
+        n += 1
+        seen = {w}
+        work = [w]
+        bad = None
+        found = False
+        while work:
+          nd = work.pop()
+          states = IN.get(nd, set())
+          if nd is not g.entry and states and not all(ls_has(ls, lock) for ls in states):
+            bad = nd
+            break
+          if is_attempt(nd):
+            found = True
+            continue
+          for p_ in preds.get(nd, []):
+            if p_ not in seen:
+              seen.add(p_)
+              work.append(p_)
+        if bad is not None:
+          ctx.fail(rule, fi, f'{fi.name}: {attempt}() ... wait() inside one critical section of the condition',
+                   f'{fi.name} reaches `{w.text()[:50]}` through `{bad.text()[:50]}` without'
+                   ' holding the condition\'s lock: the emptiness/fullness test and'
+                   ' the wait are not atomic, so a notification (new element, end'
+                   ' of stream, failure, stop) sent in between is lost and the'
+                   ' thread sleeps for ever', node=w.ast)
+        elif found:
+          ctx.ok(rule, fi, f'{fi.name}: lock held from {attempt}() to wait()', w.ast)
+        else:
+          ctx.info(rule, fi, f'{fi.name}: wait without a preceding {attempt}() in this function', w.ast)
+  ctx.floor(rule, 3, n)
+
+
 # ---------------------------------------------------------------------------
 # Self-validation corpus (edits of the current tree, applied in memory)
 from mlmverif.selfcheck import B, OK  # noqa: E402
 
 _F = 'utils/iter_utils.py'
 VARIANTS = [
+    B('batch-consumer-wakes-producer-once', _F,
+      '    result = []\n    with self._dequeue_lock:\n      while not max_batch_size or len(result) < max_batch_size:',
+      '    result = []\n    producer_notified = False\n    with self._dequeue_lock:\n      while not max_batch_size or len(result) < max_batch_size:',
+      'R-C04-5',
+      extra=((_F, '          if result:\n            _release_and_notify(self._dequeue_lock, notify=self._enqueue_lock)\n          logging.debug(',
+              '          if result and not producer_notified:\n            _release_and_notify(self._dequeue_lock, notify=self._enqueue_lock)\n            producer_notified = True\n          logging.debug('),)),
+    B('get-tests-emptiness-outside-the-condition', _F,
+      '    with self._dequeue_lock:\n      while True:\n        try:\n          value = self.get_nowait()\n          _release_and_notify(self._dequeue_lock, notify=self._enqueue_lock)',
+      '    while True:\n      with contextlib.nullcontext():\n        try:\n          value = self.get_nowait()\n          with self._enqueue_lock:\n            self._enqueue_lock.notify()',
+      'R-C04-14',
+      extra=((_F, '          if self._dequeue_lock.wait(timeout=self.timeout):\n            logging.debug(\'chainable: %s\', f\'"{self.name}" dequeue retry\')\n            continue\n          raise TimeoutError(f\'Dequeue timeout={self.timeout}secs.\') from e',
+              '          with self._dequeue_lock:\n            if self._dequeue_lock.wait(timeout=self.timeout):\n              continue\n          raise TimeoutError(f\'Dequeue timeout={self.timeout}secs.\') from e'),)),
     B('revert-recheck-done-after-handoff', _F,
       '          if not self._queue.empty() or self.enqueue_done:\n            continue',
       '          if not self._queue.empty():\n            continue', 'R-C04-9'),
